@@ -477,7 +477,13 @@ def malform(rng, spec, kind):
         s["time_dtype"] = s.get("time_dtype", "float")
     elif kind == "dup-visit-after-rounding":
         t = float(s["time"][k])
-        dup_row(k, time=t + rng.choice([1, 2, 3, -2]) * 2.0 ** -23)
+        import numpy as _np
+        # the second age must really collide with the first once rounded to 6 digits (whatever sub-microsecond perturbation `t` carries)
+        cands = [t + j * 2.0 ** -23 for j in rng.sample([1, 2, 3, -2, -1, -3], 6)]
+        cands = [c for c in cands if c != t and round(c, 6) == round(t, 6) and float(_np.round(c, 6)) == float(_np.round(t, 6))]
+        if not cands:
+            return None
+        dup_row(k, time=cands[0])
         s["time_dtype"] = "float"
         s["vals"][k + 1] = [0.25] * s["nfeat"]
     elif kind in ("nan-age", "inf-age", "neg-inf-age"):
